@@ -12,6 +12,7 @@
 From Coq Require Import List Arith NArith ZArith Bool Strings.Byte Lia ZifyBool.
 From Coq Require Strings.String.
 From DX Require Import Bytes Res Codec Text Sections Header Stream Json Reader StreamFacts Writer Dom.
+From DX Require TextFacts ReaderSpecFacts.
 From DXGen Require GenSections GenText GenCodecs.
 Import ListNotations.
 Import String.StringSyntax.
@@ -303,6 +304,7 @@ Proof.
            | Ok newline =>
                match split_lines content newline true with
                | Ok lines =>
+                   if negb (bends newline content) then CParse (st_linenum st) else
                    match e, keep with
                    | Some e0, false =>
                        match py_decode (match ind with
@@ -355,6 +357,7 @@ Proof.
     destruct (nl_res_of le e content) as [newline|e1]; [|apply err_ok_dispatch; exact Hnl].
     destruct (split_lines_ok content newline true Hne Hnl) as [lines Hsl]. rewrite Hsl.
     pose proof (split_lines_len _ _ _ Hsl) as Hlen.
+    destruct (negb (bends newline content)); [left; reflexivity|].
     set (content1 := match ind with Some (VInt z) => _ | _ => content end).
     destruct e as [e0|]; [destruct keep|]; try (apply Hfin; [discriminate|exact Hlen]).
     destruct (py_decode content1 e0) as [t|ex] eqn:D1; [|apply err_ok_dispatch; eapply py_decode_err; eauto].
@@ -942,21 +945,210 @@ Proof.
 Qed.
 
 (* ------------------------------------------------------------------------------------------------ *)
-(* The sharper bound "line number <= number of LF bytes in the input" is FALSE (of the model and of    *)
-(* the Python code): when a preamble has indent=N, _read_content tests "ends with the newline" on the *)
-(* content AFTER the indentation has been stripped, so an unterminated last line made of spaces only  *)
-(* (here the two spaces after "a\n") is accepted and counted as a line although it contains no LF.    *)
-(* Each such preamble puts the line counter one further ahead of the physical line number.           *)
+(* The sharper bound "line number <= number of LF bytes in the input".                               *)
+(* It was FALSE while _read_content tested "ends with the newline" only on the content AFTER the      *)
+(* indentation had been stripped: an unterminated last line made of spaces only (the two spaces after *)
+(* "a\n" in lf_witness below) was accepted and counted as a line although it contains no LF. Since    *)
+(* the raw content must end with the newline, every counted content line ends with the section's     *)
+(* newline, every newline of the codec catalogue contains an LF byte, every header line ends with LF: *)
+(* the line counter plus the number of LF bytes not yet consumed never increases.                    *)
 
 Definition ex_main_hdr : bytes := B "#diffx: version=1.0" ++ [lf].
 
 Definition count_lf (d : bytes) : nat := List.length (filter (fun b => byte_eqb b lf) d).
 
+(* the former counter-example: the preamble is now rejected, at line 2 of an input with 4 LF bytes *)
 Definition lf_witness : bytes :=
   B "#diffx: version=1.0" ++ [lf] ++
   B "#.preamble: indent=2, length=4" ++ [lf] ++ B "a" ++ [lf] ++ B "  " ++
   B "#.meta: length=1, encoding=nope" ++ [lf] ++ B "X".
 
-Theorem C08_linenum_lf_refuted_proof :
-  exists data l c, snd (read_all [] default_chunk data) = TParse l c /\ ~ (l < Z.of_nat (count_lf data) + 1)%Z.
-Proof. exists lf_witness, 5%Z, None. split; [vm_compute; reflexivity|vm_compute; discriminate]. Qed.
+Example lf_witness_now : read_all [] default_chunk lf_witness = ([{| r_level := 0; r_line := 0;
+    r_opts := [(B "version", VStr (B "1.0"))]; r_id := B "diffx"; r_type := B "diffx"; r_payload := PNone |}],
+    TParse 2 None) /\ count_lf lf_witness = 4.
+Proof. split; vm_compute; reflexivity. Qed.
+
+Lemma count_lf_app : forall a b, count_lf (a ++ b) = count_lf a + count_lf b.
+Proof. intros a b. unfold count_lf. rewrite filter_app, app_length. reflexivity. Qed.
+
+Lemma count_lf_cons : forall x l, count_lf l <= count_lf (x :: l).
+Proof. intros x l. change (x :: l) with ([x] ++ l). rewrite count_lf_app. lia. Qed.
+
+Lemma byte_eqb_iff : forall a b, byte_eqb a b = true <-> a = b.
+Proof.
+  intros a b. unfold byte_eqb. split; [apply Byte.byte_dec_bl|intros ->; apply Byte.byte_dec_lb; reflexivity].
+Qed.
+
+(* ---- every newline of the catalogue contains an LF byte: a table fact, by computation ---- *)
+Definition gn_has_lf (le : bytes) (enc : option bytes) : bool :=
+  match get_newline_for_type le enc with Ok nl => 1 <=? count_lf nl | Err _ => true end.
+
+Lemma gn_has_lf_all :
+  forallb (fun le => gn_has_lf le None &&
+                     forallb (fun r => gn_has_lf le (Some (GenCodecs.cr_spelling r))) GenCodecs.rows)
+          (map fst GenText.newline_formats) = true.
+Proof. vm_compute. reflexivity. Qed.
+
+Lemma get_newline_has_lf : forall le enc nl, get_newline_for_type le enc = Ok nl -> 1 <= count_lf nl.
+Proof.
+  intros le enc nl H.
+  assert (gn_has_lf le enc = true) as Hok.
+  { pose proof gn_has_lf_all as Hall. rewrite forallb_forall in Hall.
+    destruct (assoc_get beq le GenText.newline_formats) as [t|] eqn:Ele.
+    2:{ unfold get_newline_for_type in H. rewrite Ele in H. discriminate H. }
+    apply assoc_get_in in Ele. apply (in_map fst) in Ele. cbn [fst] in Ele.
+    specialize (Hall le Ele). apply andb_true_iff in Hall. destruct Hall as [Hnone Hrows].
+    destruct enc as [e|]; [|exact Hnone].
+    destruct (find_row e GenCodecs.rows) as [r|] eqn:F.
+    - apply find_row_in in F. destruct F as [Hin ->]. rewrite forallb_forall in Hrows. exact (Hrows r Hin).
+    - unfold get_newline_for_type, enc_or_ascii, py_encode, lookup_codec in H.
+      destruct (assoc_get beq le GenText.newline_formats); [|discriminate].
+      rewrite F in H. discriminate H. }
+  unfold gn_has_lf in Hok. rewrite H in Hok. apply Nat.leb_le. exact Hok.
+Qed.
+
+Lemma guess_has_lf : forall data enc p, guess_line_endings_bytes data enc = Ok p -> 1 <= count_lf (snd p).
+Proof.
+  intros data enc p. unfold guess_line_endings_bytes.
+  pose proof (get_newline_known GenText.le_unix enc (or_introl eq_refl)) as Gu.
+  pose proof (get_newline_known GenText.le_dos enc (or_intror (or_introl eq_refl))) as Gd.
+  destruct (py_encode (nl_text GenText.le_unix) (enc_or_ascii enc)) as [u0|e] eqn:Eu; cbn [bind] in *; [|discriminate].
+  destruct (py_encode (nl_text GenText.le_dos) (enc_or_ascii enc)) as [d0|e] eqn:Ed; cbn [bind] in *; [|discriminate].
+  apply get_newline_has_lf in Gu. apply get_newline_has_lf in Gd.
+  destruct (bfind _ data); [destruct (bends _ _)|]; intros H; injection H as <-; cbn [snd]; assumption.
+Qed.
+
+Lemma nl_res_has_lf : forall le enc content nl, nl_res_of le enc content = Ok nl -> 1 <= count_lf nl.
+Proof.
+  intros le enc content nl. unfold nl_res_of.
+  destruct (pv_truthy le).
+  - destruct le as [[z|s]|]; try discriminate. apply get_newline_has_lf.
+  - destruct (guess_line_endings_bytes content enc) as [p|e] eqn:G; cbn [bind]; [|discriminate].
+    intros H. injection H as <-. eapply guess_has_lf; eauto.
+Qed.
+
+(* ---- a content that ends with its newline has at most as many lines as LF bytes ---- *)
+Lemma split_aux_lf : forall sep, sep <> [] -> 1 <= count_lf sep ->
+  forall l cur, List.length (split_aux byte_eqb sep cur l 0) <= count_lf l + 1.
+Proof.
+  intros sep Hs Hlf.
+  apply (TextFacts.split_aux_ind byte_eqb byte_eqb_iff sep Hs
+           (fun _ l res => List.length res <= count_lf l + 1)).
+  - intros cur. cbn [List.length]. lia.
+  - intros cur r IH. cbn [List.length]. rewrite count_lf_app. lia.
+  - intros cur x t _ IH. pose proof (count_lf_cons x t). lia.
+Qed.
+
+Lemma split_lines_lf : forall d nl ls,
+  split_lines d nl true = Ok ls -> bends nl d = true -> 1 <= count_lf nl -> List.length ls <= count_lf d.
+Proof.
+  intros d nl ls H Hb Hlf. unfold split_lines, split_lines_g in H. unfold bends in Hb.
+  destruct d as [|d0 d']; [discriminate|]. destruct nl as [|n0 nl']; [discriminate|].
+  cbn [is_nil] in H. rewrite Hb in H. injection H as <-.
+  rewrite removelast_len, map_length. unfold split.
+  pose proof (split_aux_lf (n0 :: nl') ltac:(discriminate) Hlf (d0 :: d') []). lia.
+Qed.
+
+(* ---- the potential: line counter + LF bytes not yet consumed; it never increases ---- *)
+Definition lines_bound (st : rstate) : Z := (st_linenum st + Z.of_nat (count_lf (remaining (st_stream st))))%Z.
+
+Lemma next_nonblank_lf : forall fuel chunk s line s',
+  0 < chunk -> next_nonblank fuel chunk s = Ok (Some line, s') ->
+  count_lf (remaining s') + 1 <= count_lf (remaining s).
+Proof.
+  induction fuel as [|f IH]; intros chunk s line s' Hc H; [discriminate|].
+  cbn [next_nonblank] in H. rewrite read_until_abs_correct in H by assumption. cbn [bind] in H.
+  destruct (read_until_abs s) as [[b eof] s1] eqn:E.
+  destruct (read_until_abs_exact _ _ _ _ E) as (_ & _ & _ & D & _).
+  destruct (read_until_abs_shape _ _ _ _ E) as [Sh _].
+  destruct eof; [discriminate|]. destruct (Sh eq_refl) as [l [Hl _]].
+  assert (count_lf (remaining s1) + 1 <= count_lf (remaining s)) as Hone.
+  { rewrite D, Hl, !count_lf_app. change (count_lf [lf]) with 1. lia. }
+  destruct (nonempty (strip b)).
+  - injection H as _ <-. exact Hone.
+  - apply IH in H; [lia|assumption].
+Qed.
+
+Lemma read_header_lf : forall chunk valid st level name id opts line st1,
+  0 < chunk -> read_header chunk valid st = HdrOk level name id opts line st1 ->
+  line = st_linenum st /\ st_linenum st1 = (st_linenum st + 1)%Z /\ (lines_bound st1 <= lines_bound st)%Z.
+Proof.
+  intros chunk valid st level name id opts line st1 Hc H. unfold read_header in H.
+  destruct (next_nonblank _ chunk (st_stream st)) as [[[header|] s1]|e] eqn:Hn; try discriminate H.
+  apply next_nonblank_lf in Hn; [|assumption].
+  destruct (negb (bends _ header)); [discriminate H|].
+  destruct (parse_header valid _); [|discriminate H]. injection H as _ _ _ _ <- <-.
+  unfold lines_bound. cbn [st_linenum st_stream]. repeat split; lia.
+Qed.
+
+Lemma read_content_lf : forall st len enc ind le keep p st',
+  read_content st len enc ind le keep = COk p st' -> (lines_bound st' <= lines_bound st)%Z.
+Proof.
+  intros st len enc ind le keep p st' H. apply ReaderSpecFacts.read_content_ok_inv in H.
+  destruct H as (_ & _ & _ & newline & lines & Hnl & Hsl & -> & Hraw & _).
+  apply (nl_res_has_lf le _ _ newline) in Hnl.
+  pose proof (split_lines_lf _ _ _ Hsl Hraw Hnl) as Hlen.
+  destruct (ReaderSpecFacts.content_bytes_split st len) as [Hsplit _].
+  unfold lines_bound, ReaderSpecFacts.state_after. cbn [st_linenum st_stream].
+  rewrite Hsplit, count_lf_app. lia.
+Qed.
+
+Lemma lines_bound_ge : forall st, (st_linenum st <= lines_bound st)%Z.
+Proof. intros st. unfold lines_bound. lia. Qed.
+
+(* a parse error of an iteration is at a line <= the potential; a yielded section does not increase the potential *)
+Lemma iter_step_parse_lf : forall orc chunk st valid encs prev l c,
+  0 < chunk -> iter_step orc chunk st valid encs prev = SParse l c -> (l <= lines_bound st)%Z.
+Proof.
+  intros orc chunk st valid encs prev l c Hc H. unfold iter_step in H.
+  destruct (read_header chunk valid st) as [|level name id opts line st1|l0 c0|e] eqn:Hh; try discriminate H.
+  - destruct (read_header_lf _ _ _ _ _ _ _ _ _ Hc Hh) as (-> & Hl1 & Hb).
+    pose proof (lines_bound_ge st) as G0. pose proof (lines_bound_ge st1) as G1.
+    cbv beta zeta in H.
+    repeat match type of H with
+           | (match read_content ?a ?b ?c ?d ?e ?f with _ => _ end) = _ =>
+               let E := fresh "Ec" in destruct (read_content a b c d e f) eqn:E; try discriminate H;
+               try (apply ReaderSpecFacts.read_content_parse_line in E)
+           | (match ?x with _ => _ end) = _ => destruct x eqn:?; try discriminate H
+           | (if ?x then _ else _) = _ => destruct x eqn:?; try discriminate H
+           end;
+      injection H as <- _; first [lia | destruct Ec as [-> | ->]; lia].
+  - injection H as <- _. apply ReaderSpecFacts.read_header_parse_line in Hh. subst l0. apply lines_bound_ge.
+Qed.
+
+Lemma iter_step_yield_lf : forall orc chunk st valid encs prev r st' valid' encs' prev',
+  0 < chunk -> iter_step orc chunk st valid encs prev = SYield r st' valid' encs' prev' ->
+  (lines_bound st' <= lines_bound st)%Z.
+Proof.
+  intros orc chunk st valid encs prev r st' valid' encs' prev' Hc H. unfold iter_step in H.
+  destruct (read_header chunk valid st) as [|level name id opts line st1|l0 c0|e] eqn:Hh; try discriminate H.
+  destruct (read_header_lf _ _ _ _ _ _ _ _ _ Hc Hh) as (_ & _ & Hb). clear Hh.
+  cbv beta zeta in H.
+  repeat match type of H with
+         | (match read_content ?a ?b ?c ?d ?e ?f with _ => _ end) = _ =>
+             let E := fresh "Ec" in destruct (read_content a b c d e f) eqn:E; try discriminate H;
+             apply read_content_lf in E
+         | (match ?x with _ => _ end) = _ => destruct x eqn:?; try discriminate H
+         | (if ?x then _ else _) = _ => destruct x eqn:?; try discriminate H
+         end;
+    injection H as _ <- _ _ _; lia.
+Qed.
+
+Lemma iter_loop_lf : forall fuel orc chunk st valid encs prev acc l c,
+  0 < chunk -> snd (iter_loop fuel orc chunk st valid encs prev acc) = TParse l c -> (l <= lines_bound st)%Z.
+Proof.
+  induction fuel as [|f IH]; intros orc chunk st valid encs prev acc l c Hc H; [discriminate H|].
+  cbn [iter_loop] in H.
+  destruct (iter_step orc chunk st valid encs prev) as [|r st' valid' encs' prev'|l0 c0|e] eqn:Hs;
+    cbn [snd] in H; try discriminate H.
+  - apply IH in H; [|assumption]. apply iter_step_yield_lf in Hs; [lia|assumption].
+  - injection H as <- <-. eapply iter_step_parse_lf; eauto.
+Qed.
+
+(* C08, the sharper bound: the line number of a parse error is at most the number of LF bytes of the input *)
+Theorem C08_linenum_lines_proof : forall orc chunk data l c,
+  snd (read_all orc chunk data) = TParse l c -> (l <= Z.of_nat (count_lf data))%Z.
+Proof.
+  intros orc chunk data l c H. destruct chunk as [|k]; [rewrite read_all_chunk0 in H; discriminate H|].
+  unfold read_all in H. apply iter_loop_lf in H; [|lia]. exact H.
+Qed.
